@@ -357,7 +357,7 @@ class Extractor:
         stmts = list(stmts)
         for i, st in enumerate(stmts):
             # guard clause in a loop body: `if c: ...; continue` followed by more statements - those run only when c is false
-            if isinstance(st, ast.If) and not st.orelse and st.body and isinstance(st.body[-1], ast.Continue) and i + 1 < len(stmts):
+            if isinstance(st, ast.If) and not st.orelse and st.body and (isinstance(st.body[-1], ast.Continue) or (isinstance(st.body[-1], ast.Return) and self.depth > 0)) and i + 1 < len(stmts):
                 synth = ast.If(test=st.test, body=st.body, orelse=stmts[i + 1:])
                 ast.copy_location(synth, st)
                 out += self.stmt(synth, fn)
